@@ -150,6 +150,21 @@ def _offset_var(node: ast.AST, is_var, fold) -> Optional[int]:
 def _cmp(a: ast.AST, op: ast.cmpop, b: ast.AST, is_var, fold) -> IntSet:
     ka = _offset_var(a, is_var, fold)
     kb = _offset_var(b, is_var, fold)
+    if isinstance(op, (ast.In, ast.NotIn)) and ka is not None:
+        # var [+k] in range(lo, hi) / in (c1, c2, ...) / in [c1, ...]
+        s_: Optional[IntSet] = None
+        if isinstance(b, ast.Call) and isinstance(b.func, ast.Name) and b.func.id == "range" and 1 <= len(b.args) <= 2 and not b.keywords:
+            lo = _const(b.args[0], fold) if len(b.args) == 2 else 0
+            hi = _const(b.args[-1], fold)
+            s_ = IntSet([(lo - ka, hi - 1 - ka)]) if hi > lo else IntSet.empty()
+        elif isinstance(b, (ast.Tuple, ast.List, ast.Set)):
+            vals = [_const(e, fold) for e in b.elts]
+            s_ = IntSet.empty()
+            for v_ in vals:
+                s_ = s_.union(IntSet([(v_ - ka, v_ - ka)]))
+        if s_ is None:
+            raise NotInterval("membership in a non-constant container")
+        return s_ if isinstance(op, ast.In) else s_.complement()
     if ka is not None and kb is None:
         c = _const(b, fold) - ka  # var + ka OP c0  ->  var OP c0 - ka
         return _rel(op, c, var_left=True)
